@@ -181,7 +181,7 @@ fn shape_attacks(rng: &mut Rng, base: L, n: usize, out: &mut Vec<(L, L)>) {
         return;
     }
     let a = |i: usize| base + (i % n) as L;
-    match rng.below(9) {
+    match rng.below(11) {
         0 => {
             // cycle (odd or even according to n)
             for i in 0..n {
@@ -221,6 +221,77 @@ fn shape_attacks(rng: &mut Rng, base: L, n: usize, out: &mut Vec<(L, L)>) {
                         if rng.chance(3, 4) {
                             out.push((a(j), a(i)));
                         }
+                    }
+                }
+            }
+        }
+        6 | 7 if n >= 4 => {
+            // motif composition: frameworks on which the semantics genuinely differ (GR != ID != the
+            // intersection of PR, SST != PR, STG != SST): reinstatement chains, "floating" defeat
+            // (x<->y, x->z, y->z, z->w), odd and even cycles, self-attackers, glued by a few
+            // one-directional attacks between motifs
+            let mut next = 0usize;
+            let mut motif_heads: Vec<usize> = vec![];
+            while next < n {
+                let left = n - next;
+                let m = rng.below(7);
+                let start = next;
+                match m {
+                    0 if left >= 3 => {
+                        // reinstatement: unattacked -> defeated -> reinstated (optionally two attackers)
+                        out.push((a(start), a(start + 1)));
+                        out.push((a(start + 1), a(start + 2)));
+                        next += 3;
+                        if left >= 4 && rng.bool() {
+                            out.push((a(start + 3), a(start + 1)));
+                            next += 1;
+                        }
+                    }
+                    1 if left >= 4 => {
+                        // floating defeat / floating reinstatement
+                        out.push((a(start), a(start + 1)));
+                        out.push((a(start + 1), a(start)));
+                        out.push((a(start), a(start + 2)));
+                        out.push((a(start + 1), a(start + 2)));
+                        out.push((a(start + 2), a(start + 3)));
+                        next += 4;
+                    }
+                    2 if left >= 3 => {
+                        for i in 0..3 {
+                            out.push((a(start + i), a(start + (i + 1) % 3)));
+                        }
+                        next += 3;
+                    }
+                    3 if left >= 4 => {
+                        for i in 0..4 {
+                            out.push((a(start + i), a(start + (i + 1) % 4)));
+                        }
+                        next += 4;
+                    }
+                    4 => {
+                        out.push((a(start), a(start)));
+                        next += 1;
+                    }
+                    5 if left >= 2 => {
+                        out.push((a(start), a(start + 1)));
+                        out.push((a(start + 1), a(start)));
+                        next += 2;
+                    }
+                    _ => {
+                        next += 1; // isolated argument
+                    }
+                }
+                motif_heads.push(start);
+            }
+            // glue: each motif (but the first) receives or sends one attack from/to an earlier argument
+            for h in motif_heads.iter().skip(1) {
+                if rng.chance(3, 4) {
+                    let other = rng.below(*h);
+                    let inside = *h + rng.below((n - *h).min(4));
+                    if rng.bool() {
+                        out.push((a(other), a(inside)));
+                    } else {
+                        out.push((a(inside), a(other)));
                     }
                 }
             }
